@@ -191,6 +191,53 @@ func c19Case(p promPipe, word []h.Ev, licence bool, nsubs int) fw.Case {
 	}}
 }
 
+// c19LicenceHistory: the licence is read when it matters, not when the pipeline value was built. The
+// pipeline is built under one licence state and subscribed under a sequence of others; the collector is
+// read with the licence active. The counters must describe the subscriptions made while the licence was
+// active (what the current code does), or all of them (the property does not say which, so both readings
+// are accepted, but the same one for every counter).
+func c19LicenceHistory(p promPipe, word []h.Ev, buildOn bool, states []bool) fw.Case {
+	nm := fmt.Sprintf("Pipe%d/%s/built-with-licence=%v/subscribed-with=%v:%s", p.N, p.Layout, buildOn, states, h.Word(word))
+	return fw.Case{Name: nm, Opts: vrt.Options{Horizon: 200000}, Make: func() fw.Instance {
+		var viol []fw.Violation
+		sig := fmt.Sprintf("prom/Pipe%d.%s", p.N, p.Layout)
+		outcome := ""
+		body := func() {
+			defer roprometheus.SetLicenseBypassForVerification(false)
+			roprometheus.SetLicenseBypassForVerification(buildOn)
+			obsI, coll := p.Build(roprometheus.CollectorConfig{Namespace: "verif"}, h.Script[int](h.NewSrc("instrumented"), h.Unsafe, word))
+			obsP := p.Plain(h.Script[int](h.NewSrc("plain"), h.Unsafe, word))
+			on := 0
+			for i, st := range states {
+				roprometheus.SetLicenseBypassForVerification(st)
+				if st {
+					on++
+				}
+				ri, rp := h.NewRec("instrumented"), h.NewRec("plain")
+				obsI.Subscribe(h.Observer[int](ri))
+				obsP.Subscribe(h.Observer[int](rp))
+				if !h.SameTrace(ri.Events(), rp.Events()) && len(viol) == 0 {
+					viol = append(viol, fw.V(sig+"/transparency-trace/differs", fmt.Sprintf("%s: subscription %d delivered [%s], plain pipeline [%s]", nm, i+1, ri.Trace(), rp.Trace())))
+				}
+				outcome = ri.Trace()
+			}
+			roprometheus.SetLicenseBypassForVerification(true)
+			g, err := gather(coll)
+			if err != nil {
+				viol = append(viol, fw.V(sig+"/collector/gather-failed", err.Error()))
+				return
+			}
+			srcVals := countN(h.LegalPrefix(word))
+			got := [2]float64{g.counters["verif_ro_subscriptions_total"], g.counters["verif_ro_notification_in_total"]}
+			okFor := func(n int) bool { return got[0] == float64(n) && got[1] == float64(n*srcVals) }
+			if !okFor(on) && !okFor(len(states)) {
+				viol = append(viol, fw.V(sig+"/counters-after-licence-change/mismatch", fmt.Sprintf("%s: %d subscriptions (%d with the licence active) of a source emitting %d values; the collector read with the licence active says subscriptions_total=%v notification_in_total=%v", nm, len(states), on, srcVals, got[0], got[1])))
+			}
+		}
+		return fw.Instance{Body: body, Outcome: func() string { return outcome }, Check: func(r *vrt.Result) []fw.Violation { return viol }}
+	}}
+}
+
 // stand-alone counters
 func c19Standalone(word []h.Ev) fw.Case {
 	return fw.Case{Name: "standalone:" + h.Word(word), Make: func() fw.Instance {
@@ -306,6 +353,13 @@ func init() {
 					for _, lic := range []bool{false, true} {
 						for _, ns := range []int{1, 3} {
 							c.Explore(c19Case(p, w, lic, ns))
+						}
+					}
+				}
+				for _, w := range [][]h.Ev{{h.Nx(1), h.Nx(2), h.Co()}, {h.Nx(1), h.Er(h.ErrSrc)}} {
+					for _, b := range []bool{false, true} {
+						for _, st := range [][]bool{{true}, {true, true}, {false, true}, {true, false, true}, {false, false}} {
+							c.Explore(c19LicenceHistory(p, w, b, st))
 						}
 					}
 				}
